@@ -13,12 +13,26 @@ from engine.cab import CTX, SymInt, explore
 from engine.ref import ConcreteNet
 
 
-def execute(rules, S, names):
+def execute(rules, S, names, free=()):
     import biodivine_aeon as ba
     from biobalm.petri_net_translation import network_to_petrinet
     from biobalm.space_utils import percolate_network, percolate_space
     from biobalm.interaction_graph_utils import cleanup_network
     bn = cleanup_network(ba.BooleanNetwork.from_bnet(rules))
+    if free:
+        # the variables in `free` (identity dynamics) are presented as FREE INPUTS: no update function, no regulators
+        vs = list(bn.variable_names())
+        regs = [r for r in bn.regulations() if bn.get_variable_name(r["target"]) not in free]
+        fns = [None if nm in free else str(bn.get_update_function(nm)) for nm in vs]
+        nb = ba.BooleanNetwork(vs, None, None, None)
+        for r in regs:
+            nb.add_regulation({"source": bn.get_variable_name(r["source"]), "target": bn.get_variable_name(r["target"]),
+                               "essential": r.get("essential", True), "sign": r.get("sign")})
+        for nm, f in zip(vs, fns):
+            if f is not None:
+                nb.set_update_function(nm, f)
+        bn = cleanup_network(nb)
+        assert all(bn.get_update_function(nm) is None for nm in free)
     g = ba.AsynchronousGraph(bn)
     pn = network_to_petrinet(bn)
     n = len(names)
@@ -46,10 +60,17 @@ def execute(rules, S, names):
         rnames = list(r.variable_names())
         fns = {}
         for nm in rnames:
-            f = gr.mk_update_function(nm)
             tab = {}
-            for vals in itertools.product((0, 1), repeat=len(rnames)):
-                tab[vals] = bool(f.r_restrict(dict(zip(rnames, vals))).is_true())
+            if r.get_update_function(nm) is None:
+                # still a free input: it never changes (the dynamics of the identity); recorded so that the assertion
+                # can demand that an input fixed by the space is no longer free
+                out.setdefault("still_free_" + ("rc" if rc else "keep"), []).append(nm)
+                for vals in itertools.product((0, 1), repeat=len(rnames)):
+                    tab[vals] = bool(vals[rnames.index(nm)])
+            else:
+                f = gr.mk_update_function(nm)
+                for vals in itertools.product((0, 1), repeat=len(rnames)):
+                    tab[vals] = bool(f.r_restrict(dict(zip(rnames, vals))).is_true())
             fns[nm] = tab
         out["rc" if rc else "keep"] = {"names": rnames, "fns": fns}
     return out
@@ -75,13 +96,18 @@ def assertion(B, out):
     parts.append(("remove_constants=True: exactly the variables left free by percolation remain", B.const(sorted(rc["names"]) == sorted(names[v] for v in free))))
     keep = out["keep"]
     parts.append(("remove_constants=False: all variables remain", B.const(sorted(keep["names"]) == sorted(names))))
+    for label in ("rc", "keep"):
+        for nm in out.get("still_free_" + label, []):
+            parts.append((f"{label}: input {nm} is a free parameter of the percolated network only if the space leaves it free", B.const(R[names.index(nm)] is None)))
     for label, res in (("rc", rc), ("keep", keep)):
         rn = res["names"]
         for nm, tab in res["fns"].items():
             v = names.index(nm)
             if R[v] is not None:
-                # a variable fixed by percolation that is kept: its function on the space is the (given or derived) constant,
-                # unless the given value conflicts with the dynamics (then the function says what the dynamics do)
+                # a variable fixed by percolation that is kept: on a trap space its function is that constant
+                for vals, val in tab.items():
+                    if all(R[names.index(k)] is None or R[names.index(k)] == b for k, b in zip(rn, vals)):
+                        parts.append((f"{label}: kept constant {nm} has the value fixed by the space", B.const(bool(val) == bool(R[v]))))
                 continue
             for vals, val in tab.items():
                 x = list(0 if r is None else r for r in R)
@@ -106,10 +132,18 @@ def run_task(task):
     for t in ts:
         cs += [t >= -1, t <= 1]
     selftest = task["params"].get("selftest")
+    fis = []
+    if task["params"].get("free_inputs"):
+        # fi_v = 1: variable v is presented to the real code as a free input (only allowed when its dynamics are the identity)
+        fis = [z3.Int(f"fi{i}") for i in range(net.n)]
+        for i, t in enumerate(fis):
+            cs += [t >= 0, t <= 1, z3.Implies(t == 1, z3.And([net.fval(i, x) == bool(x[i]) for x in net.states]))]
+        cs.append(z3.Sum(fis) >= 1)
 
     def harness(ctx, rules):
         S = tuple((None if (v := SymInt(t).concrete()) < 0 else v) for t in ts)
-        out = execute(rules, S, net.names)
+        free = tuple(net.names[i] for i, t in enumerate(fis) if SymInt(t).concrete() == 1)
+        out = execute(rules, S, net.names, free)
         parts = assertion(net, out)
         if selftest:
             parts.append(("selftest", net.FALSE))
@@ -120,7 +154,7 @@ def run_task(task):
                 ctx.obs(f)
         return specs.conj(net, parts), {"S": S, "perc": out["perc"]}
     cube = [net.bits[i] if v else z3.Not(net.bits[i]) for i, v in task.get("cube", [])]
-    res = explore(net, harness, extra_vars=ts, extra_constraints=cs, cube=cube, timebox=task["timebox"], seed=task.get("seed", 0), label=task["label"],
+    res = explore(net, harness, extra_vars=ts + fis, extra_constraints=cs, cube=cube, timebox=task["timebox"], seed=task.get("seed", 0), label=task["label"],
                   start_at=task.get("start_at"), max_classes=task.get("max_classes"))
     res["violations"] = res["violations"][:4]
     return res
@@ -129,7 +163,8 @@ def run_task(task):
 def replay(rec):
     B = ConcreteNet.from_bnet(rec["rules"])
     S = tuple((None if rec["hist"].get(f"s{i}", -1) < 0 else int(rec["hist"][f"s{i}"])) for i in range(B.n))
-    out = execute(rec["rules"], S, B.names)
+    free = tuple(B.names[i] for i in range(B.n) if int(rec["hist"].get(f"fi{i}", 0)) == 1)
+    out = execute(rec["rules"], S, B.names, free)
     parts = assertion(B, out)
     failing = specs.failing_parts(B, parts)
     return {"reproduces": bool(failing), "failing": failing[:5], "signature": None}
